@@ -96,7 +96,11 @@ def case_batches(ctx, tag, big=True):
             batch.append(("rnd", c, True))
     if big:
         bj = [([7, 8, 8, 0.3, 6, True], [0.1, 0.1, 0.1]), ([8, 1, 40, 0.5, 3, False], [0.5, 0.29, 0.1]),
-              ([9, 40, 1, 0.5, 3, True], [0.29, 0.5, 0.1])]
+              ([9, 40, 1, 0.5, 3, True], [0.29, 0.5, 0.1]),
+              # state numbers past CPython's small-int cache (257) in every group: identity-vs-equality slips show here
+              ([12, 9, 10, 0.4, 5, False], [0.29, 0.1, 0.5]), ([13, 1, 90, 0.5, 3, True], [0.5, 0.5, 0.5]),
+              ([ctx.rng.randrange(10 ** 6), ctx.rng.randint(6, 12), ctx.rng.randint(8, 14), 0.3, 4, ctx.rng.random() < 0.5],
+               [0.1, 0.29, 0.5])]
         if not ctx.quick:
             bj += [([10, 20, 20, 0.3, 6, True], [0.1, 0.1, 0.1]), ([11, 12, 7, 0.9, 6, False], [0.01, 0.99, 0.5])]
         for c in boards_from_generator(bj, tag + "big"):
